@@ -4,7 +4,8 @@ Spec:  MultiImage.tla (AddMI/SubMI/ScaleMI/EqMI defined BY TYPE, PytreeMI sorts 
        machine MultiImageStore.tla.
 MC:    all histories  build a ; build b ; [transform] ; op   over every insertion order of three types whose blocks
        have EQUAL element counts (mis-pairing is silent), constructor vs append, jit / vmap / tree_flatten round
-       trips, to_vector/from_vector, copy; ArithByType: (a+b)[t] = a[t]+b[t] and the result is the same for every
+       trips, to_vector/from_vector, copy, rebuilding from the same blocks in another insertion order (== must be
+       true) or with two same-shaped blocks exchanged between their types (== must be false); ArithByType: (a+b)[t] = a[t]+b[t] and the result is the same for every
        re-ordering of either operand; operands with different type sets are rejected.
 Replay: every behaviour into real MultiImage objects (a real jax.jit / jax.vmap identity for the round trip),
        full projected state compared after every step.  Thorough adds TLC -simulate behaviours of depth 6 with
@@ -32,6 +33,9 @@ def instances(tier):
                     Orders={(1, 2, 3), (3, 1, 2)}))                                    # blocks with a batch axis
     out.append(dict(base, Names={"a", "b", "c"}, Ops={"New", "Copy", "Add", "Sub", "Scale", "Eq"}, MaxDepth=4,
                     Orders={(1, 2, 3), (2, 3, 1)}))                                    # copies must not share state with their source
+    # the same blocks through the constructor in every other insertion order (== must hold), and with the data of the two
+    # same-shaped scalar / pseudoscalar blocks exchanged between their types (== must fail)
+    out.append(dict(base, Ops={"New", "Rebuild", "RoundTrip", "Add", "Sub", "Eq"}, MaxDepth=4, Orders={(1, 2, 3), (3, 1, 2), (2, 1, 3)}))
     if tier == "thorough":
         out.append(dict(base, TypeList=T3B, Dims=(2, 1), Ops={"New", "BuildAppend", "RoundTrip", "ViaVector", "Copy", "Add", "Sub", "Eq", "Scale"},
                         MaxDepth=4, Orders=allp | {(1, 2), (3, 2)}, Names={"a", "b", "c"}))
@@ -68,7 +72,7 @@ def main(tier):
                 seen.add(h)
                 behaviours.append(c["hist"])
     chk.extra["instances"] = [{k: (sorted(map(str, v)) if isinstance(v, set) else v) for k, v in c.items()} for c in insts]
-    core.require_ops(behaviours, ["New", "BuildAppend", "Add", "Sub", "Eq", "Mul", "DivInv", "RoundTrip", "ViaVector", "Copy"])
+    core.require_ops(behaviours, ["New", "BuildAppend", "Add", "Sub", "Eq", "Mul", "DivInv", "RoundTrip", "ViaVector", "Copy", "Rebuild"])
     for fails, n in core.pmap(storereplay.replay_chunk, core.shards(behaviours, 64)):
         chk.evaluations += n
         chk.traces += n
@@ -81,8 +85,9 @@ def main(tier):
             # orders of the two operands just before the operation
             ords = {}
             for s in h[:-1]:
-                ords[s["x"]] = s["after"]["order"]
-                if s["op"] == "Copy":
+                if s["op"] != "Rebuild":
+                    ords[s["x"]] = s["after"]["order"]
+                if s["op"] in ("Copy", "Rebuild"):
                     ords[s["y"]] = s["after"]["order"]
             if ords.get(last["x"]) != ords.get(last["y"]):
                 chk.distinct.add(core.chash(h))
